@@ -482,6 +482,11 @@ func (c *Client) handleSessionMessage(addr *net.UDPAddr, msg []byte) error {
 		return nil
 	}
 
+	if PlaintextLen(len(msg)) < 0 {
+		// Too short to hold a counter and a tag: not a transport message.
+		return ErrBufUnderflow
+	}
+
 	// TODO(dadrian): Can we avoid this allocation?
 	plaintext := make([]byte, PlaintextLen(len(msg)))
 	_, mt, err := c.ss.readPacketLocked(plaintext, msg, c.ss.readKey)
